@@ -74,6 +74,9 @@ def layout(t, structs):
     if k == 'array':
         s, a = layout(t.b, structs)
         return (s * t.a, a)
+    if k == 'vec':
+        s, a = layout(t.b, structs)
+        return (s * t.a, s * t.a)
     if k == 'struct':
         body = structs.get(t.a)
         if body is None:
@@ -514,6 +517,24 @@ class Interp:
             cur = list(a) if isinstance(a, (list, tuple)) else [TOP] * n
             cur[ins.x['idx'][0]] = b
             st.env[ins.res] = tuple(cur)
+            return [st]
+        if op == 'insertelement':
+            a = self.val(ins.ops[0], st, fn)
+            b = self.val(ins.ops[1], st, fn)
+            i = d.concrete(self.val(ins.ops[2], st, fn))
+            n = ins.ty.a
+            cur = list(a) if isinstance(a, (list, tuple)) else [TOP] * n
+            if i is None:
+                raise Unsupported('insertelement at a symbolic index')
+            cur[i] = b
+            st.env[ins.res] = tuple(cur)
+            return [st]
+        if op == 'extractelement':
+            a = self.val(ins.ops[0], st, fn)
+            i = d.concrete(self.val(ins.ops[1], st, fn))
+            if i is None or not isinstance(a, (list, tuple)):
+                raise Unsupported('extractelement of a non-vector value')
+            st.env[ins.res] = a[i]
             return [st]
         if op == 'call':
             return self.call(ins, st, fn, depth)
